@@ -367,8 +367,8 @@ Definition same_ids (a b : list string) : bool :=
   forallb (fun x => str_mem x b) a && forallb (fun x => str_mem x a) b.
 (* Fit.best_fit is compared up to ties (the order in which the relationship lists the cells is SQL's):
    same kind of outcome, and the observed cell is a child holding the likelihood of the model's best cell *)
-Definition best_matches (db : list row) (gid : string) (o : best_obs) : bool :=
-  match best_child db gid, o with
+Definition best_matches (repaired : bool) (db : list row) (gid : string) (o : best_obs) : bool :=
+  match (if repaired then best_child_repaired db gid else best_child db gid), o with
   | BestRaised, ObsBestRaised => true
   | BestNone, ObsBestNone => true
   | BestIs b, ObsBestId id =>
@@ -376,9 +376,9 @@ Definition best_matches (db : list row) (gid : string) (o : best_obs) : bool :=
                         && match r_maxll r, r_maxll b with Some x, Some y => Z.eqb x y | _, _ => false end) (children db gid)
   | _, _ => false
   end.
-Definition grid_obs_matches (db : list row) (p : string * best_obs * list string) : bool :=
+Definition grid_obs_matches (repaired : bool) (db : list row) (p : string * best_obs * list string) : bool :=
   let '(gid, o, q) := p in
-  best_matches db gid o && same_ids (map r_id (best_fits_query db gid)) q.
+  best_matches repaired db gid o && same_ids (map r_id (best_fits_query db gid)) q.
 
 (* ------------------------------------------------------------------------------------------ *)
 (* C. the fits themselves: what `search.fit` leaves in a directory / in a session               *)
@@ -564,6 +564,8 @@ Inductive case :=
    per grid search: observed Fit.best_fit outcome and the ids best_fits() lists for it *)
 | CDir (co : bool) (dir : list folder) (obs : observed) (best_ids : list (string * best_obs * list string))
        (unfaithful : list (list string))
+       (repaired : bool)   (* which Fit.best_fit the running code has: as written (false) | skipping cells without
+                              likelihood, no start value (true) -- read from the source by the harness *)
 (* two directories loaded one after the other into the same database *)
 | CDir2 (co : bool) (dirA dirB : list folder) (obsA obsB : observed)
 (* archives and folders as they lie on disk BEFORE the load (each read on its own): the loaded database is
@@ -593,12 +595,12 @@ Definition check_case (classes : list search_class) (uf : bool) (c : case) : boo
       && forallb (faithful_as_expected unfaithful) found
       && forallb (fun s => if is_prefit s || String.eqb (fs_reload_id s) "" then true
                            else Bool.eqb (spec_faithful s) (negb (path_mem (spec_path s) unfaithful))) specs
-  | CDir co dir obs best_ids unfaithful =>
+  | CDir co dir obs best_ids unfaithful repaired =>
       outcome_matches [] (scrape classes uf co dir []) obs
       && forallb (folder_keys_known classes) dir
       && forallb (faithful_as_expected unfaithful) dir
       && match scrape classes uf co dir [] with
-         | Loaded db => forallb (grid_obs_matches db) best_ids
+         | Loaded db => forallb (grid_obs_matches repaired db) best_ids
          | Raised _ => true
          end
   | CDisk co ds found obs =>
